@@ -104,13 +104,13 @@ Definition stmt_bound_continue : Prop :=
   forall SS (sch : scheduler SS) n fuel main objs st w st' out, Run sch (ContinueAfter n) fuel main objs st w st' out ->
   out <> OStepBound.
 
-(* executions that need no more than n steps in total are unaffected by the bound n: same world, same outcome *)
+(* executions that need fewer than n steps in total are unaffected by the bound n: same world, same outcome *)
 Definition erase (ev : event) : event :=
   match ev with EvDecision _ off cur y ch => EvDecision init_exec off cur y ch | _ => ev end.
 Definition stmt_bound_unaffected : Prop :=
   forall SS (sch : scheduler SS) ms n fuel main objs st w st' out, Run sch MSNone fuel main objs st w st' out ->
   out <> OFuel -> bound_of ms = Some n ->
-  length (recorded (w_e w)) <= n ->
+  length (recorded (w_e w)) < n ->
   run_exec sch ms fuel main objs st = (w, st', out).
 
 (* no execution ever performs more than n steps (decisions plus random draws since the last reset_step_count) *)
